@@ -291,4 +291,29 @@ theorem readStream_rel (mode : LineMode) (fs : FS) (topdir : Str) (hfs : FsOK mo
   exact content_rel fs topdir mode _ _ (readFile_rel mode fs topdir hfs (fs.length + 1)) content hc {} {}
     ⟨rfl, rfl, rfl, rfl, by simp⟩
 
+theorem file_hosts_spec_partial' (mode : LineMode) (fs : FS) (topdir : Str)
+    (hfs : FsOK mode.cap topdir fs) (content : Str) (hc : ContentOK mode.cap topdir content) :
+    (readStream mode fs [topdir] content).exprs = (WcollSpec.streamHosts fs topdir content).exprs ∧
+    (readStream mode fs [topdir] content).nwarn = (WcollSpec.streamHosts fs topdir content).skipped ∧
+    (readStream mode fs [topdir] content).fatal = (WcollSpec.streamHosts fs topdir content).error :=
+  let r := readStream_rel mode fs topdir hfs content hc
+  ⟨r.exprs, r.nwarn, r.fatal⟩
+
+theorem file_source_spec_partial' (mode : LineMode) (fs : FS) (stdin file : Str) (h1 : file ≠ ['-'])
+    (hdir : listSplit [':'] (dirname file) = [WcollSpec.dirOf file])
+    (hfs : FsOK mode.cap (WcollSpec.dirOf file) fs) :
+    (readWcoll mode fs stdin file).1.exprs = (WcollSpec.fileHosts fs file).exprs ∧
+    (readWcoll mode fs stdin file).1.nwarn = (WcollSpec.fileHosts fs file).skipped ∧
+    (readWcoll mode fs stdin file).1.fatal = (WcollSpec.fileHosts fs file).error := by
+  unfold readWcoll WcollSpec.fileHosts
+  rw [if_neg h1, hdir]
+  cases hlk : lookup fs file with
+  | none => exact ⟨rfl, rfl, rfl⟩
+  | some f =>
+    simp only
+    by_cases hrd : f.readable = true
+    · simp only [hrd, if_true]
+      exact file_hosts_spec_partial' mode fs _ hfs f.content (hfs f (lookup_some_mem hlk).1 hrd)
+    · simp [hrd]
+
 end PdshVerif.Opt.Wcoll
